@@ -2,11 +2,11 @@
   MdModel.Bytes — line-protocol entry of the byte-level reader model (`MdModel.Dump`).
 
   engine `read` (C01):
-      read <hex(bytes)> [sizes:<17 decimal numbers, comma separated>]
+      read <hex(bytes)> [sizes:<19 decimal numbers, comma separated>]
     -> hdr:err <Error>
      | hdr:ok <le|be> ver=<v> n=<stream_count> dir=<rva> | dir:[<type>@<idx>:<size>:<rva>,..]
        | thr:<S> | mod:<S> | unl:<S> | mem:<S> | mem64:<S> | minfo:<S> | tnames:<S> | tinfo:<S>
-       | hnd:<S> | exc:<S> | getmem:<mem64|mem|none>
+       | hnd:<S> | exc:<S> | cp:<S> | getmem:<mem64|mem|none>
      followed by  ` ## allocs:<n>*<sz>[~],..`  (the allocation log; `~` = inexact estimate)
      or `PANIC <site> ## allocs:..` when the model reaches a panic outcome.
     <S> = `err <Error>` or `ok[..]` with one `;`-terminated item per element (see `show*` below).
@@ -69,6 +69,26 @@ def showException (x : Exception) : String :=
   s!"ok {x.threadId}/{x.code}/{x.flags}/{x.address}/{x.numberParameters}/{showOptRange x.context}/p=" ++
     Proto.joinWith "," ((printedParams x).map fun (i, v) => s!"{i}:{v}") ++ s!"/ca={ca}"
 
+def showBytes (b : Bytes) : String := Proto.hex b.toList
+
+def showDict (d : List (Bytes × Bytes)) : String :=
+  "[" ++ Proto.joinWith "," (d.map fun (k, v) => s!"{showBytes k}:{showBytes v}") ++ "]"
+
+def showAnnotationValue : AnnotationValue → String
+  | .invalid => "i"
+  | .string s => "s" ++ showBytes s
+  | .userDefined ty v => s!"u{ty}:{v}"
+  | .unsupported ty v => s!"x{ty}:{v}"
+
+def showModuleCrashpad (m : ModuleCrashpadInfo) : String :=
+  s!"{m.moduleIndex}/{m.version}/L[" ++ Proto.joinWith "," (m.listAnnotations.map showBytes) ++ "]/D" ++
+    showDict m.simpleAnnotations ++ "/A[" ++
+    Proto.joinWith "," (m.annotationObjects.map fun (k, v) => s!"{showBytes k}:{showAnnotationValue v}") ++ "]"
+
+def showCrashpad (c : CrashpadInfo) : String :=
+  s!"ok {c.version}/D" ++ showDict c.simpleAnnotations ++ "/M[" ++
+    String.join (c.modules.map fun m => showModuleCrashpad m ++ ";") ++ "]"
+
 def showDir (d : Dump) : String :=
   "dir:[" ++ Proto.joinWith "," (d.streams.map fun (ty, ent) => s!"{ty}@{ent.idx}:{ent.loc.size}:{ent.loc.rva}") ++ "]"
 
@@ -90,6 +110,7 @@ def showParsed (p : Parsed) : String :=
     "tinfo:" ++ showRes (showItems showThreadInfo) p.threadInfo,
     "hnd:" ++ showRes (showItems showHandle) p.handles,
     "exc:" ++ showRes showException p.exception,
+    "cp:" ++ showRes showCrashpad p.crashpad,
     "getmem:" ++ getMemoryKind p]
 
 def showAllocs (as : List Alloc) : String :=
@@ -98,8 +119,8 @@ def showAllocs (as : List Alloc) : String :=
 def parseSizes (s : String) : Option MemSizes :=
   match (s.splitOn ",").map Proto.optNat with
   | [some a, some b, some c, some d, some e, some f, some g, some h, some i, some j, some k, some l,
-     some m, some n, some o, some p, some q] =>
-    some ⟨a, b, c, d, e, f, g, h, i, j, k, l, m, n, o, p, q⟩
+     some m, some n, some o, some p, some q, some r, some t] =>
+    some ⟨a, b, c, d, e, f, g, h, i, j, k, l, m, n, o, p, q, r, t⟩
   | _ => none
 
 def answerRead (ms : MemSizes) (b : Bytes) : String :=
